@@ -58,6 +58,7 @@ def scenario(ck, trial, tier):
             torn = set()
             nsteps = 18 if tier == 'quick' else 40
             pending_mutants = []
+            future_again = []
             orphan_parent = None
             for step in range(nsteps):
                 cm = sn.lp().chain_manager
@@ -72,7 +73,18 @@ def scenario(ck, trial, tier):
                 irt = 0
                 rolled_back = [x for x in byid.values() if x.id not in known_ids and x.parent is not None and
                                x.parent.id in known_ids and x in tg.nodes]
-                if trial % 2 == 1 and step < 3:
+                if future_again and rng.random() < 0.6 and future_again[0][1].id in known_ids:
+                    # a block that was refused because it lay more than 30 s ahead of the node's clock is offered again once the
+                    # clock has caught up: now it is simply a valid block
+                    fblk, fpar = future_again.pop(0)
+                    fbv = spec.BlockView(fblk)
+                    fnode = chaingen.Node(fblk, fpar, spec.apply_block(fpar.utxo, fbv))
+                    byid[fnode.id] = fnode
+                    tg.nodes.append(fnode)
+                    net.clock.t = max(net.clock.t, fbv.time + 5)
+                    blk, label, expect = fblk, 'valid-after-clock-caught-up', 'accept'
+                    r = 2.0
+                elif trial % 2 == 1 and step < 3:
                     # context: a bulk download is in progress -- valid blocks arrive as replies to the node's own requests,
                     # are applied without in-state validation and wait in the write buffer
                     r = 0.0
@@ -124,6 +136,8 @@ def scenario(ck, trial, tier):
                     c = pending_mutants.pop()
                     blk, label, expect = c['block'], 'mutant:' + c['label'], 'reject'
                     net.clock.t = max(net.clock.t, c['now'])
+                    if c['label'].startswith('time-31s'):
+                        future_again.append((c['block'], par))
                 bv = spec.BlockView(blk)
                 net.clock.t = max(net.clock.t, bv.time + 1)
                 if label.startswith('mutant:time-31s'):
@@ -296,6 +310,58 @@ def rollback_scenario(ck, trial, tier):
                                  'holds %d' % (len(back), len(fin['blocks'])), rp)
 
 
+def shared_address_scenario(ck, trial, tier):
+    """two distinct peers share one IP address: the node dialled one of them (outgoing connection), the other one dialled the
+    node (incoming connection).  A relayed block that becomes the head goes to BOTH, once each"""
+    from skepticoin.networking import messages as M
+    from skepticoin.networking.remote_peer import DisconnectedRemotePeer, OUTGOING
+    rng = ck.rng
+    keys = chaingen.Keys()
+    with chaingen.Env(period=50) as env:
+        tg = chaingen.TreeGen(env, keys, rng)
+        n = tg.genesis
+        for _ in range(3):
+            n = tg.extend(n, txs=[], fees=0, dt=100)
+        main = list(tg.nodes)
+        with simnet.Net(seed=rng.getrandbits(30), t0=n.view.time + 5000) as net:
+            sn = nodeharness.SingleNode(net, chaingen.impl_state_from(main), [m.block for m in main[1:]], npeers=1)
+            shared = '10.4.4.4'
+            srv = net.add_server(shared, 2412)
+            sn.node.activate()
+            sn.lp().start_outgoing_connection(DisconnectedRemotePeer(shared, 2412, OUTGOING, None, 0))
+            srv.accept_pending()
+            sn.node.step()
+            sn.pump()
+            out_conn = srv.live()[0]
+            hello = nodeharness.frame(M.MessageHeader(0, 1, 0, 1).serialize() + sn.hello().serialize())
+            out_conn.send(hello)
+            sn.pump()
+            inc = simnet.RawPeer(net, host=shared).connect(sn.node)
+            sn.node.step()
+            sn.pump()
+            inc.send(nodeharness.frame(M.MessageHeader(0, 2, 0, 1).serialize() + M.HelloMessage(
+                [M.SupportedVersion(0)], __import__('ipaddress').IPv6Address('::FFFF:10.0.0.1'), 2412,
+                __import__('ipaddress').IPv6Address('0::0'), 2500, 778899, b'skv-test').serialize()))
+            sn.pump()
+            n_active = len(sn.lp().network_manager.get_active_peers())
+            del out_conn.flight[:]
+            inc.drain()
+            inc.received = bytearray()
+            nb = tg.extend(n, txs=[], fees=0, dt=100)
+            sn.deliver(0, M.DataMessage(M.DATA_BLOCK, nb.block))
+
+            def blocks_in(raw):
+                return sum(1 for fr_ in nodeharness.split_frames(bytes(raw)) if nodeharness.classify(fr_)[:2] == ('block', nb.id))
+            got_out = blocks_in(out_conn.flight)
+            got_in = blocks_in(inc.drain())
+            ck.case(('shared-address', trial), kind='relay/two-peers-one-address',
+                    sample={'active_peers': n_active, 'relays_to_dialled_peer': got_out, 'relays_to_peer_that_dialled_us': got_in})
+            if nb.id in sn.observe()['blocks'] and n_active >= 3 and (got_out != 1 or got_in != 1):
+                ck.violation('relay-count', 'two peers share one address (one we dialled, one that dialled us): a block that became the '
+                             'head was relayed %d time(s) to the first and %d time(s) to the second, expected once each'
+                             % (got_out, got_in), {'scripted': 'shared address', 'trial': trial})
+
+
 def run(tier, seed):
     ck = common.Check('C09', tier, seed)
     ck.rule = ('one real node with the real block store and three scripted peers; sequences of deliveries outside bulk '
@@ -322,6 +388,14 @@ def run(tier, seed):
             continue
         reqs.append(req)
         obs.append(observed)
+    for tr_ in range(2 if tier == 'quick' else 6):
+        try:
+            shared_address_scenario(ck, tr_, tier)
+        except Exception:
+            import traceback
+            tb = traceback.format_exc()
+            if 'could not mine a block' not in tb:
+                ck.disagree('shared-address scenario crashed: %s' % tb[-400:], {})
     for tr_ in range(4 if tier == 'quick' else 12):
         try:
             rollback_scenario(ck, tr_, tier)
